@@ -116,7 +116,8 @@ SetTask(f, o) == wb' = [wb EXCEPT ![f] = o] /\ wbdone' = [wbdone EXCEPT ![f] = F
 SetOwn(f, b) == own' = [own EXCEPT ![f] = b] /\ lastpass' = NoPass /\ UNCHANGED <<fvars, wb, wbdone>>
 
 ----------------------------------------------------------------------------
-CONSTANTS TTIs, TTLs, Lowers, Usages      \* design-model parameter sets
+CONSTANTS TTIs, TTLs, Lowers, Usages,     \* design-model parameter sets
+          EnvFiles                        \* files whose ownership / write-back task the design model varies
 Perms(S) == {p \in [1..Cardinality(S) -> S] : \A i, j \in 1..Cardinality(S) : i # j => p[i] # p[j]}
 CNext == \/ \E f \in Files : Lift(Create(f, 1, now)) \/ Lift(Touch(f)) \/ Lift(Delete(f))
          \/ \E f \in Files, v \in {"true", "none"} : Lift(SetPersist(f, v))
@@ -126,18 +127,19 @@ CNext == \/ \E f \in Files : Lift(Create(f, 1, now)) \/ Lift(Touch(f)) \/ Lift(D
                TTLPass(ord, tti, ttl, lo, u, 4)
          \/ \E ord \in Perms(ListRes), lo \in Lowers \ {0} : PolicyPass(ord, lo, 4)
          \/ \E ord \in Perms(ListRes), ttl \in TTLs : ForcePass(ord, ttl)
-         \/ \E f \in Files, o \in {"ok", "fail"} : SetTask(f, o)
-         \/ \E f \in Files : SetOwn(f, FALSE)
+         \/ \E f \in EnvFiles, o \in {"ok", "fail"} : SetTask(f, o)
+         \/ \E f \in EnvFiles : SetOwn(f, FALSE)
 CSpec == (\E c \in FCaps : CInit(c)) /\ [][CNext]_cvars
 
 (* Properties (C10) *)
 \* a file awaiting write-back is never removed by DeleteFile, LRU eviction, periodic or aggressive cleanup;
 \* the forced cleanup of the origin may remove it, but only after its write-back task ran successfully
-PersistProtected ==
-  [][\A f \in Files : (persist[f] = "true" /\ onDisk[f] /\ ~onDisk'[f]) =>
+PersistProtectedStep ==
+  \A f \in Files : (persist[f] = "true" /\ onDisk[f] /\ ~onDisk'[f]) =>
         /\ lastpass'.kind = "force"
         /\ wb[f] # "fail"
-        /\ (wb[f] = "ok" => wbdone'[f])]_cvars
+        /\ (wb[f] = "ok" => wbdone'[f])
+PersistProtected == [][PersistProtectedStep]_cvars
 \* a normal pass (no threshold cut-off) removes exactly the unprotected idle / expired files; on a
 \* capacity-bounded map the pass's own reloads may additionally evict unprotected files
 Unprot(f) == onDisk[f] /\ persist[f] # "true"
